@@ -300,6 +300,7 @@ struct WorldSI : World, Net {
     if (c.has("localiphost")) { k->put_file(t.home + "/control/localiphost", c.gets("localiphost") + "\n"); cf.localiphost = c.gets("localiphost"); }
     if (c.has("databytes")) { k->put_file(t.home + "/control/databytes", std::to_string(c.geti("databytes")) + "\n"); cf.databytes = (uint64_t)c.geti("databytes"); }
     if (c.has("timeoutsmtpd")) { k->put_file(t.home + "/control/timeoutsmtpd", std::to_string(c.geti("timeoutsmtpd")) + "\n"); cf.timeout = c.geti("timeoutsmtpd"); if (cf.timeout <= 0) cf.timeout = 1; }
+    t.restyle_all_controls(k, (int)plan->knobs.geti("ctl_style", 0));
     interfaces.clear(); interfaces.push_back(0x7f000001); for (auto &x : plan->knobs["interfaces"].a) interfaces.push_back((uint32_t)x.i());
     cf.ifaces = interfaces; cf.ifaces.push_back(0);   // ipme.c: 0.0.0.0 always counts as this host
     g_net = this;
